@@ -41,19 +41,39 @@ def expected_blocks(cfg):
     return {"%s %s" % (p, b) for p in cfg["protos"] for b in LAYER_BLOCKS[cfg["layer"]]}
 
 
-def cargo_cmd(cfg):
+def cargo_cmd(cfg, release=False):
     cmd = ["cargo", "run", "--offline", "-q", "-j", "2", "--manifest-path", os.path.join(SMOKE, "Cargo.toml"),
-           "--no-default-features", "--message-format=json"]
+           "--no-default-features", "--message-format=json"] + (["--release"] if release else [])
     if cfg["features"]:
         cmd += ["--features", ",".join(cfg["features"])]
     return cmd
 
 
+def wants_release(cfg):
+    """the dev profile is run for every configuration; the release profile (debug assertions compiled out)
+    additionally for the singletons, the full set, default and none"""
+    return len(cfg["protos"]) in (0, 1, 8) or cfg["name"] == "<default>"
+
+
 def run_one(cfg, wid):
+    r = run_profile(cfg, wid, False)
+    if r["verdict"] == "ok" and wants_release(cfg):
+        r2 = run_profile(cfg, wid, True)
+        r["release_too"] = True
+        r["wall_s"] = round(r["wall_s"] + r2["wall_s"], 2)
+        if r2["verdict"] != "ok":
+            r2["kind"] = "release:" + r2.get("kind", "?")
+            r2["wall_s"] = r["wall_s"]
+            r2["release_too"] = True
+            return r2
+    return r
+
+
+def run_profile(cfg, wid, release):
     env = dict(os.environ, CARGO_NET_OFFLINE="true", CARGO_TARGET_DIR=os.path.join(TROOT, "w%d" % wid))
     env.pop("RUSTFLAGS", None)  # the hooks guard is OFF here: C20 is about the crate as shipped
     t0 = time.time()
-    p = subprocess.run(cargo_cmd(cfg), env=env, stdout=subprocess.PIPE, stderr=subprocess.PIPE, text=True, timeout=1800)
+    p = subprocess.run(cargo_cmd(cfg, release), env=env, stdout=subprocess.PIPE, stderr=subprocess.PIPE, text=True, timeout=1800)
     codes, first_err, ran, fails, ok_line = [], None, set(), [], False
     client_codes = []  # errors located in the smoke client (pv_smoke), not in the crate
     for line in p.stdout.splitlines():
@@ -198,6 +218,7 @@ def main():
         "lattice_edges_explored": edges,
         "lattice_edges_both_endpoints_pass": edges_ok,
         "round_trip_blocks_executed": sum(r.get("blocks", 0) for r in results),
+        "configurations_also_built_and_run_in_release_profile": sum(1 for r in results if r.get("release_too")),
         "outcome_histogram": hist,
         "samples": [{"config": r["cfg"], "verdict": r["verdict"], "blocks_run": r.get("blocks"), "wall_s": r.get("wall_s")} for r in results[:3] + results[-2:]],
         "workers": WORKERS,
